@@ -23,7 +23,7 @@ ID = "C10"
 COQ_DIR = "C10"
 RUN_MOD = "C10.Run"
 MODEL_TARGETS = ["C10/Run.vo"]
-PROOF_TARGETS = ["C10/SgrLemmas.vo", "C10/Lemmas.vo", "C10/LemmasInv.vo", "C10/LemmasRun.vo", "C10/LemmasPure.vo", "C10/LemmasTop.vo", "C10/LemmasSub.vo", "C10/LemmasWit.vo", "C10/LemmasLayout.vo"]
+PROOF_TARGETS = ["C10/SgrLemmas.vo", "C10/Lemmas.vo", "C10/LemmasInv.vo", "C10/LemmasRun.vo", "C10/LemmasPure.vo", "C10/LemmasTop.vo", "C10/LemmasSub.vo", "C10/LemmasWit.vo", "C10/LemmasLayout.vo", "C10/LemmasHandle.vo"]
 PROPS = ["C10/Props.v"]
 ALLOWED_AXIOMS = []
 IMPL_TIMEOUT = 60.0
@@ -429,9 +429,16 @@ RULE = ("random histories of 4-14 operations over 1-3 objects (json values, tabl
         "headers / footers / titles / skipped-records and break lines around the table width; git history reports with continuation lines and "
         "author names around 18; console help with attribute names of several lengths -- each rendered coloured and no_color under a "
         "configuration that colours EVERY syntax id (TEXT included), under a second configuration and, in 40% of them, with an unrelated global "
-        "configuration in place; on the fresh reference renderings the result object is also measured (len, plain_text, fixed_len, format, slices).")
+        "configuration in place; on the fresh reference renderings the result object is also measured (len, plain_text, fixed_len, format, slices).  "
+        "Plus 60 (thorough 600) shared-state / lazy-result histories: 2-4 tables built from ONE format object (fmt_obj = a template or the first "
+        "table's .fmt), some sharing the records list and the enum field types, with records that need different column widths, rendered in "
+        "random order; and results created first (make = obj.ch_text(...)) and consumed later: two or three results of one object under "
+        "different settings (coloured / no_color / other configuration) consumed alternately step by step (next), with whole consumptions "
+        "(str / full iteration) and ordinary renderings in between, drained at the end, or consumed whole only after other renderings; "
+        "tables there have break columns and record limits (service lines), json / report results share one printer / formatter.")
 TRUSTED_BASE = [
     "the chunk program of tables, record formatters, git history reports and console help (which palette accessor colours which text) is taken from the implementation by a probe rendering with an instrumented palette on a fresh copy of the object; their layout code is NOT modelled in Coq (tested: strip(coloured) = no_color on the implementation for objects at the layout thresholds, and the model, fed with the probe's layout, must reproduce the coloured text)",
+    "lazy results: which line a generator step yields and which sub-palettes it requests first (the probe records, per line, how many sub-palettes had been requested when the line was yielded) are taken from the probe; the model has no state of its own for the object (format objects, records, service lines): that sibling objects and concurrent generators share nothing is exactly what the comparison with the model (programs of fresh copies) and the fresh-state oracle test",
     "pretty-printer values: the layout IS modelled (coq/C10/Layout.v, pp_obj); str() of numbers and of non-string keys and the order of dict keys (the implementation's _mk_type_sort_value) enter as oracle values",
     "CPython: id() of a live object is never handed to a new object; an object referenced from a dict key stays alive",
     "the colour description language is modelled for named foreground colours and bold only; add_new_items' eager resolution loop is modelled as following the parent chain in the current map; the re-entrant set_global_colors_config calls are flattened (harness/props/c10.notes.md)",
@@ -440,11 +447,12 @@ TRUSTED_BASE = [
 ASSUMPTIONS = [
     "texts handed to the formatters (cell values, keys, strings, commit messages, doc strings) contain no ESC character",
     "values of one enum field type are pairwise distinct under Python equality (1 / True / 1.0 aliasing is the open finding enum-cache-equal-keys)",
-    "a CHTextResult is consumed under the configuration in force when ch_text() was called; lines are turned into text with str(CHText(line)) (table rows are yielded as lists of chunks)",
+    "a CHTextResult is consumed under the configuration in force when ch_text() was called (the generated histories put no registration / drop / set-global between the creation of a lazy result and its last consumption); lines are turned into text with str(CHText(line)) (table rows are yielded as lists of chunks)",
     "palette classes do not declare conflicting defaults for the same syntax id and configurations do not form parent cycles",
 ]
 MODELLED = ("ak/color.py ColorsConfig caches / Palette metaclass / CompoundPalette / _mk_palette / global + synced palettes, "
-            "ak/ppobj.py CHTextResult and the PPEnumFieldType cell cache, ak/hdoc.py HCommand palette capture; "
+            "ak/ppobj.py CHTextResult (palette selected by ch_text(), lines produced lazily: OMake / ONext / OWholeH -- results created first, "
+            "consumed later, step by step, interleaved) and the PPEnumFieldType cell cache, ak/hdoc.py HCommand palette capture; "
             "ak/ppobj.py PrettyPrinter layout (_gen_ch_lines, _gen_ch_chunks_for_obj: one line below 200, wrapping at 150, indentation) in Layout.v; "
             "ghist and hdoc formatters, table / record layout: correspondence (with the probe's layout) and oracle only")
 
@@ -993,12 +1001,144 @@ def _threshold_case(rng, what=None):
     return {"fts": fts, "objs": objs, "ops": ops + plan, "thr": 1}
 
 
+# ---------------------------------------------------------------------- shared state and lazy results
+# "Rendering other objects, or the same object under another configuration, before or in between never changes it;
+# consuming a result line by line gives the same text as consuming it whole."  Two channels the histories above do
+# not exercise: (1) state that sibling objects share by construction -- tables built from one PPTableFormat
+# (fmt_obj=template or another table's .fmt), one records list, one enum field type, one printer / formatter;
+# (2) results are LAZY: ch_text() only selects the palette, the lines are produced by a generator when the result
+# is consumed, so two results (of the same object, under different settings) can be consumed alternately, a whole
+# rendering can happen in between, and a result can be consumed long after it was created.
+def _service_table(rng, nfts):
+    """table with service lines: a break column whose value changes and / or record limits that hide records"""
+    fields = ["grp", "id", "nm"] + (["st"] if nfts else [])
+    ftmap = {"st": rng.randrange(nfts)} if nfts else {}
+    nrec = rng.randrange(3, 9)
+    recs = []
+    g = 0
+    for _ in range(nrec):
+        if rng.random() < 0.5:
+            g += 1
+        r = [rng.choice([g, "g%d" % g]), rng.choice([rng.randrange(10), rng.randrange(3000), None, True]), rng.choice(LONGWORDS[:9])]
+        if nfts:
+            r.append(rng.choice([1, 2, 3, 10, 20, 300, "A", None, 77]))
+        recs.append(r)
+    cols = ["grp!" if rng.random() < 0.8 else "grp", "id" + rng.choice(["", "", ":3", ":2-6"]), "nm" + rng.choice(["", "", ":5", ":3-12"])]
+    if nfts:
+        cols.append("st" + rng.choice(["", "/full", "/val", "/name"]))
+    fmt = ",".join(cols)
+    if rng.random() < 0.6:
+        fmt += ";" + rng.choice(["1:1", "2:0", "0:1", "1:2", "2:2"])
+    return {"k": "table", "fields": fields, "ft": ftmap, "fmt": fmt, "recs": recs,
+            "header": rng.choice([None, "Hdr", "a longer table header text"]), "footer": rng.choice([None, "", "done"]),
+            "titles": rng.choice([None, None, {"id": "Id\nnum"}])}
+
+
+def _sibling_case(rng):
+    """two to four tables built from ONE format object (a template, or the .fmt of the first table), some sharing the
+    records list and the enum field types, with records that need different column widths; rendered in a random
+    order, coloured and no_color, some of them through lazy results"""
+    nfts = rng.randrange(0, 2)
+    fts = [_rand_ft(rng) for _ in range(nfts)]
+    base = _service_table(rng, nfts)
+    base["fmt"] = base["fmt"].replace(":3-12", "").replace(":2-6", "")       # widths come from the records
+    tm = {"fields": base["fields"], "ft": base["ft"], "fmt": base["fmt"], "titles": base["titles"]}
+    use_tmpl = rng.random() < 0.6
+    objs = []
+    for i in range(rng.randrange(2, 5)):
+        t = _service_table(rng, nfts)
+        t.update(fields=base["fields"], ft=base["ft"], fmt=base["fmt"], titles=base["titles"])
+        for r in t["recs"]:
+            r[2] = rng.choice(LONGWORDS) if rng.random() < 0.7 else r[2]
+            r[1] = rng.choice([r[1], rng.randrange(10 ** (1 + 2 * i), 10 ** (2 + 2 * i))])
+        if use_tmpl:
+            t["tmpl"] = 0
+        elif i > 0:
+            t["fmt_of"] = 0
+        if i > 0 and rng.random() < 0.25:
+            t["recs_of"] = rng.randrange(i)
+            t["recs"] = objs[t["recs_of"]]["recs"]
+        objs.append(t)
+    ops = [["newconf", 0, False, rng.choice([{}, _all_colours(rng)])], ["newconf", 1, rng.random() < 0.3, _rand_conf_items(rng, 3)]]
+    order = list(range(len(objs)))
+    rng.shuffle(order)
+    nh = 0
+    for o in order + [rng.choice(order)]:
+        r = rng.random()
+        if r < 0.7:
+            ops.append(["render", o, rng.choice([0, 0, 1]), rng.random() < 0.3, "none", rng.choice([0, 0, 1, 2, 3])])
+        else:
+            ops += [["make", nh, o, rng.choice([0, 1]), rng.random() < 0.3, "none"], ["next", nh, rng.choice([2, 400])]]
+            if rng.random() < 0.5:
+                ops.append(["whole", nh, rng.choice([0, 1])])
+            nh += 1
+    case = {"fts": fts, "objs": objs, "ops": ops, "shr": 1}
+    if use_tmpl:
+        case["tmpls"] = [tm]
+    return case
+
+
+def _interleave_case(rng):
+    """lazy results: two or three results (of one object under different settings, or of different objects) are
+    created first, then consumed alternately step by step, with whole consumptions and ordinary renderings in
+    between, and drained at the end -- or consumed whole only after other renderings"""
+    what = rng.choice(["table", "table", "table", "json", "json", "ghist", "ghist", "mixed"])
+    nfts = rng.randrange(0, 3)
+    fts = [_rand_ft(rng) for _ in range(nfts)]
+    if what == "table":
+        objs = [_service_table(rng, nfts)] + ([_service_table(rng, nfts)] if rng.random() < 0.4 else [])
+    elif what == "json":
+        objs = [_threshold_json(rng) if rng.random() < 0.5 else {"k": "json", "v": _fix_keys({"id": 7, "l": [1, "two", None, {"a": [True, 2.5]}], "n": "x"}), "fj": rng.random() < 0.3}]
+    elif what == "ghist":
+        objs = [_threshold_ghist(rng)]
+    else:
+        objs = [_service_table(rng, nfts), {"k": "json", "v": _fix_keys({"id": 7, "l": [1, "two", None], "t": {"k": [False]}}), "fj": False}, _rand_ghist(rng)]
+    ops = [["newconf", 0, False, _all_colours(rng)], ["newconf", 1, rng.random() < 0.2, rng.choice([{}, _rand_conf_items(rng, 3), _all_colours(rng)])]]
+    if rng.random() < 0.25:
+        ops.append(["setglobal", rng.choice([0, 1])])
+    settings = [(0, False), (0, True), (1, False), (1, True)]
+    nres = rng.randrange(2, 4)
+    handles = []
+    for h in range(nres):
+        o = 0 if (h < 2 and rng.random() < 0.8) else rng.randrange(len(objs))
+        conf, nc = settings[h] if rng.random() < 0.7 else rng.choice(settings)
+        pa = ["obj", conf] if rng.random() < 0.15 else "none"
+        ops.append(["make", h, o, None if isinstance(pa, list) else conf, nc, pa])
+        handles.append(h)
+    renderable = list(range(len(objs)))
+    if rng.random() < 0.3:
+        # created first, consumed last: other renderings in between, then everything whole
+        for _ in range(rng.randrange(1, 4)):
+            ops.append(["render", rng.choice(renderable), rng.choice([0, 1]), rng.random() < 0.3, "none", rng.choice([0, 1])])
+        rng.shuffle(handles)
+        for h in handles:
+            ops.append(["whole", h, rng.choice([0, 0, 1, 2, 3])])
+        return {"fts": fts, "objs": objs, "ops": ops, "shr": 1}
+    wholes = set()
+    for step in range(rng.randrange(6, 26)):
+        r = rng.random()
+        if r < 0.08:
+            ops.append(["render", rng.choice(renderable), rng.choice([0, 1]), rng.random() < 0.3, "none", rng.choice([0, 1])])
+        elif r < 0.16:
+            h = rng.choice(handles)
+            if h not in wholes:
+                wholes.add(h)
+                ops.append(["whole", h, rng.choice([0, 0, 1])])
+        else:
+            ops.append(["next", handles[step % len(handles)] if rng.random() < 0.8 else rng.choice(handles), rng.choice([1, 1, 1, 2])])
+    for h in handles:
+        ops.append(["next", h, 400])
+    return {"fts": fts, "objs": objs, "ops": ops, "shr": 1}
+
+
 def gen_cases(rng, tier):
     big = tier == "thorough"
     cases = [_rand_history(rng, big) for _ in range(4000 if big else 420)]
     # objects AT the layout thresholds: a fixed share per object kind (never left to chance in the quick tier)
     for what, n in (("json", 36), ("table", 30), ("rec", 8), ("ghist", 8), ("hdoc", 8)):
         cases += [_threshold_case(rng, what) for _ in range(n * 10 if big else n)]
+    cases += [_sibling_case(rng) for _ in range(240 if big else 24)]
+    cases += [_interleave_case(rng) for _ in range(360 if big else 36)]
     cases += [_reg_case(rng) for _ in range(200 if big else 12)]
     cases += [_synced_case(rng) for _ in range(200 if big else 12)]
     cases += [_hunt_case(rng) for _ in range(12 if big else 3)]
@@ -1006,13 +1146,13 @@ def gen_cases(rng, tier):
 
 
 def search_cases(rng, tier):
-    return [_threshold_case(rng) for _ in range(240)] + [_hunt_case(rng) for _ in range(30)] + [_reg_case(rng) for _ in range(60)] + [_synced_case(rng) for _ in range(60)] + [_rand_history(rng, True) for _ in range(600)]
+    return [_sibling_case(rng) for _ in range(80)] + [_interleave_case(rng) for _ in range(120)] + [_threshold_case(rng) for _ in range(240)] + [_hunt_case(rng) for _ in range(30)] + [_reg_case(rng) for _ in range(60)] + [_synced_case(rng) for _ in range(60)] + [_rand_history(rng, True) for _ in range(600)]
 
 
 def kind(case):
     if case.get("hunt"):
         return "hunt"
-    return ("threshold:" if case.get("thr") else "") + "+".join(sorted({o["k"] for o in case["objs"]}))
+    return ("threshold:" if case.get("thr") else "") + ("shared/lazy:" if case.get("shr") else "") + "+".join(sorted({o["k"] for o in case["objs"]}))
 
 
 # ====================================================================== implementation side
@@ -1171,7 +1311,14 @@ class _World:
         self.case = case
         self.probe = probe          # _Probe or None
         self.fts = [self._ft(i, s) for i, s in enumerate(case["fts"])]
-        self.objs = [self._obj(s) for s in case["objs"]]
+        # state that sibling objects legitimately share: format templates (PPTable(fmt_obj=...)), records lists,
+        # one PrettyPrinter per format, one ReportFormatter
+        self.tmpls = [self._tmpl(s) for s in case.get("tmpls", [])]
+        self.tables = {}
+        self.recs = {}
+        self.pps = {}
+        self.rfmt = None
+        self.objs = [self._obj(s, i) for i, s in enumerate(case["objs"])]
 
     def _ft(self, i, spec):
         if self.probe is None:
@@ -1187,17 +1334,34 @@ class _World:
             d[f] = FieldType()
         return d
 
-    def _obj(self, s):
+    def _tmpl(self, s):
+        from ak.ppobj import PPTableFormat
+        return PPTableFormat.make(s["fmt"], list(s["fields"]), self._field_types(s), s.get("titles"))
+
+    def _obj(self, s, idx=None):
         k = s["k"]
         if k == "json":
             from ak.ppobj import PrettyPrinter
-            pp = PrettyPrinter(fmt_json=s["fj"])
+            if s["fj"] not in self.pps:
+                self.pps[s["fj"]] = PrettyPrinter(fmt_json=s["fj"])
+            pp = self.pps[s["fj"]]
             v = _unfix(s["v"])
             return ("json", PrettyPrinter.PPPalette, lambda **kw: pp(v, **kw))
         if k == "table":
             from ak.ppobj import PPTable
-            t = PPTable([tuple(r) for r in s["recs"]], fields=list(s["fields"]), fmt=s["fmt"], header=s["header"], footer=s["footer"],
-                        fields_types=self._field_types(s), fields_titles=s["titles"])
+            if s.get("recs_of") is not None and s["recs_of"] in self.recs:
+                recs = self.recs[s["recs_of"]]          # the very same list object as the sibling table
+            else:
+                recs = [tuple(r) for r in s["recs"]]
+            self.recs[idx] = recs
+            if s.get("tmpl") is not None:
+                t = PPTable(recs, fmt_obj=self.tmpls[s["tmpl"]], header=s["header"], footer=s["footer"])
+            elif s.get("fmt_of") is not None:
+                t = PPTable(recs, fmt_obj=self.tables[s["fmt_of"]].fmt, header=s["header"], footer=s["footer"])
+            else:
+                t = PPTable(recs, fields=list(s["fields"]), fmt=s["fmt"], header=s["header"], footer=s["footer"],
+                            fields_types=self._field_types(s), fields_titles=s["titles"])
+            self.tables[idx] = t
             return ("table", PPTable.TablePalette, lambda **kw: t.ch_text(**kw))
         if k == "rec":
             from ak.ppobj import PPRecordFmt
@@ -1206,7 +1370,9 @@ class _World:
             return ("rec", PPRecordFmt.PPRecordPalette, lambda **kw: f(rec, **kw))
         if k == "ghist":
             from ak.ghist import GHistReport, ReportFormatter
-            rep = GHistReport(_ghist_data(s), ReportFormatter())
+            if self.rfmt is None:
+                self.rfmt = ReportFormatter()
+            rep = GHistReport(_ghist_data(s), self.rfmt)
             return ("ghist", GHistReport.GHistPalette, lambda **kw: rep.ch_text(**kw))
         if k == "hdoc":
             return ("hdoc", None, _hdoc_obj(s))
@@ -1344,11 +1510,14 @@ class _Probe:
                     line.append(["p", " "])
                 line += self._line(col.chunks)
             lines = [line]
+            marks = None
         else:
             lines = []
+            marks = []          # marks[i] = number of sub-palettes requested when line i was yielded (lazy generators)
             for l in r:
+                marks.append(len(sublog))
                 lines.append(self._line(l.chunks if isinstance(l, CHText) else list(l)))
-        return {"cls": self.klasses.index(K), "subs": sublog, "lines": lines}
+        return {"cls": self.klasses.index(K), "subs": sublog, "lines": lines, "marks": marks}
 
     def _line(self, chunks):
         out = []
@@ -1457,6 +1626,7 @@ def _content_tracker(case):
     glob = None          # None | cid | "dflt"
     per_op = []
     hctor = {}
+    hmade = {}
     for op in case["ops"]:
         k = op[0]
         if k == "newconf":
@@ -1466,6 +1636,15 @@ def _content_tracker(case):
         elif k == "setglobal":
             glob = op[1] if op[1] is not None else "dflt"
         snap = {"glob": (confs[glob] if glob not in (None, "dflt") else [False, [{}]])}
+        if k in ("next", "whole"):
+            snap["conf"] = hmade[op[1]]
+        if k == "make":
+            # r = obj.ch_text(...): ["make", h, obj, conf, no_color, palette arg] -- the palette is selected now
+            op = ["render", op[2], op[3], op[4], op[5], 0]
+            k = "render"
+            made = True
+        else:
+            made = False
         if k == "render":
             pa = op[4]
             if isinstance(pa, list):
@@ -1478,6 +1657,8 @@ def _content_tracker(case):
                 snap["conf"] = confs[op[2]]
             if op[3] and glob is None and (isinstance(pa, list) or pa == "synced"):
                 glob = "dflt"
+            if made:
+                hmade[case["ops"][len(per_op)][1]] = snap["conf"]
         elif k == "newh":
             if glob is None:
                 glob = "dflt"
@@ -1556,6 +1737,9 @@ def _run_history(case, w, klasses, log):
     from ak.hdoc import HCommand
     confs = {}
     hcmds = {}
+    results = {}        # lazy results (CHTextResult) and their iterators live until the end of the history
+    iters = {}
+    made = {}
     canon = {}
     recs = []
     for op in case["ops"]:
@@ -1588,6 +1772,39 @@ def _run_history(case, w, klasses, log):
                 hcmds[op[1]] = HCommand(op[2])
             elif k == "help":
                 rec["out"] = [hcmds[op[1]]._make_help_text(w.objs[op[2]][2])]
+            elif k == "make":
+                kind, K, call = w.objs[op[2]]
+                pa = op[5]
+                if isinstance(pa, list):
+                    kw = {"palette": K(colors_conf=confs[pa[1]]), "no_color": op[4]}
+                else:
+                    kw = {"colors_conf": confs[op[3]] if op[3] is not None else None, "no_color": op[4]}
+                results[op[1]] = call(**kw)
+                del kw
+            elif k == "next":
+                # up to op[2] steps of THE iterator of result op[1] (created at its first step); one text and one
+                # list of palette identities per step
+                from ak.color import CHText
+                if op[1] not in iters:
+                    iters[op[1]] = iter(results[op[1]])
+                rec["out"], rec["lids"] = [], []
+                for _ in range(op[2]):
+                    del log[:]
+                    try:
+                        l = next(iters[op[1]])
+                    except StopIteration:
+                        rec["end"] = 1
+                        rec["tail_ids"] = len(log)
+                        break
+                    rec["out"].append(str(CHText(l)))
+                    rec["lids"].append([canon.setdefault(raw, len(canon) + 1) for raw in log])
+                    del l
+                del log[:]
+            elif k == "whole":
+                kind = w.objs[made[op[1]]][0]
+                rec["out"] = _consume(results[op[1]], op[2], kind)
+            if k == "make":
+                made[op[1]] = op[2]
         except Exception as e:  # noqa
             rec["err"] = SX.exc_name(e)
         ids = []
@@ -1682,6 +1899,10 @@ def impl_run(case):
     # 3. references in pristine state
     if refs is None:
         refs = [(_safe_reference(case, i, op, snaps[i], ex, klasses) if op[0] in ("render", "help") and "out" in recs[i] else None) for i, op in enumerate(case["ops"])]
+        for i, op in enumerate(case["ops"]):
+            if op[0] == "make" and "err" not in recs[i]:
+                # what the result must print, whenever and however it is consumed
+                refs[i] = _safe_reference(case, i, ["render", op[2], op[3], op[4], op[5], 0], snaps[i], ex, klasses)
     _reset_globals()
     for rec, r in zip(recs, refs):
         if r:
@@ -1723,47 +1944,82 @@ class _Synt:
         return self.m[name]
 
 
-def coq_case(case, obs):
+def _handle_obj(case, obs, oi, first, n=None):
+    """Coq objspec of lines [first, first+n) (n None: all) of object oi, with the sub-palettes first requested
+    while those lines are produced"""
+    j = (obs.get("jvs") or [None] * len(case["objs"]))[oi]
+    if j is not None:
+        full = f"(pp_obj {SX.cbool(case['objs'][oi]['fj'])} ({_c_jv(j)}))"
+        if n is None:
+            return full
+        return f"(mkObj pp_cls (@nil Z) (firstn {n} (skipn {first} (o_lines {full}))))"
+    prog = obs["progs"][oi]
+    if n is None:
+        return _c_obj(prog)
+    marks = prog["marks"]
+    lo = marks[first - 1] if first > 0 else 0
+    hi = marks[first + n - 1]
+    return f"(mkObj {prog['cls']} {SX.cZlist(prog['subs'][lo:hi])} {_c_lines(prog['lines'][first:first + n])})"
+
+
+def _model_ops(case, obs):
+    """-> [(Coq op term, [texts the implementation printed])]: one model operation per history operation, except
+    that a "next" operation of k steps becomes k ONext operations"""
     from harness.lib import implrun
     ex = extract(implrun.REPO, strict=False)
     sid = _Synt(ex)
-    fts = []
-    for i, fd in enumerate(obs["ftdefs"]):
-        rows = []
-        for li, vk, d in fd:
-            mods = SX.clist(f"({mi}, {SX.clist(f'({a}, {SX.cstr(t)})' for a, t in d[str(mi)]) if d[str(mi)] else '(@nil (Z * list Z))'})" for mi in (0, 1, 2))
-            rows.append(f"({li}, {mods})")
-        fts.append(f"({i}, {SX.clist(rows) if rows else '(@nil (Z * list (Z * list (Z * list Z))))'})")
-    objs = []
     hlevel = {}
-    ops = []
+    made = {}
+    pos = {}
+    out = []
     for op, rec in zip(case["ops"], obs["ops"]):
         k = op[0]
         ids = SX.cZlist(rec.get("ids", []))
+        texts = rec.get("out", [])
         if k == "newconf":
-            ops.append(f"ONewConf {op[1]} {SX.cbool(op[2])} {c_items(op[3], sid)}")
+            out.append((f"ONewConf {op[1]} {SX.cbool(op[2])} {c_items(op[3], sid)}", texts))
         elif k == "drop":
-            ops.append(f"ODrop {op[1]}")
+            out.append((f"ODrop {op[1]}", texts))
         elif k == "reg":
-            ops.append(f"ORegister {op[1]} {c_items(op[2], sid)}")
+            out.append((f"ORegister {op[1]} {c_items(op[2], sid)}", texts))
         elif k == "setglobal":
-            ops.append(f"OSetGlobal {SX.copt(op[1], SX.cZ)}")
+            out.append((f"OSetGlobal {SX.copt(op[1], SX.cZ)}", texts))
         elif k == "render":
             pa = op[4]
             cpa = f"(PObj {pa[1]})" if isinstance(pa, list) else {"none": "PNone", "synced": "PSynced"}[pa]
             copt = None if (isinstance(pa, list) or pa == "synced") else op[2]
-            j = (obs.get("jvs") or [None] * len(case["objs"]))[op[1]]
-            if j is not None:
-                # the layout of a pretty-printer value is COMPUTED by the model (Layout.v), not taken from the probe
-                cobj = f"(pp_obj {SX.cbool(case['objs'][op[1]]['fj'])} ({_c_jv(j)}))"
-            else:
-                cobj = _c_obj(obs['progs'][op[1]])
-            ops.append(f"ORender {cobj} {SX.copt(copt, SX.cZ)} {SX.cbool(op[3])} {cpa} {op[5]} {ids}")
+            out.append((f"ORender {_handle_obj(case, obs, op[1], 0)} {SX.copt(copt, SX.cZ)} {SX.cbool(op[3])} {cpa} {op[5]} {ids}", texts))
         elif k == "newh":
             hlevel[op[1]] = op[2]
-            ops.append(f"ONewH {op[1]} {ids}")
+            out.append((f"ONewH {op[1]} {ids}", texts))
         elif k == "help":
-            ops.append(f"OHelp {op[1]} {_c_obj(obs['progs'][op[2]], hlevel[op[1]])}")
+            out.append((f"OHelp {op[1]} {_c_obj(obs['progs'][op[2]], hlevel[op[1]])}", texts))
+        elif k == "make":
+            made[op[1]] = op[2]
+            pos[op[1]] = 0
+            pa = op[5]
+            cpa = f"(PObj {pa[1]})" if isinstance(pa, list) else "PNone"
+            copt = None if isinstance(pa, list) else op[3]
+            prog = obs["progs"][op[2]]
+            out.append((f"OMake {100 + op[1]} {prog['cls']} {SX.copt(copt, SX.cZ)} {SX.cbool(op[4])} {cpa} {ids}", texts))
+        elif k == "next":
+            for t, lids in zip(texts, rec.get("lids", [])):
+                out.append((f"ONext {100 + op[1]} {_handle_obj(case, obs, made[op[1]], pos[op[1]], 1)} {SX.cZlist(lids)}", [t]))
+                pos[op[1]] += 1
+        elif k == "whole":
+            out.append((f"OWholeH {100 + op[1]} {_handle_obj(case, obs, made[op[1]], 0)} {op[2]} {ids}", texts))
+    return out
+
+
+def coq_case(case, obs):
+    fts = []
+    for i, fd in enumerate(obs["ftdefs"]):
+        rows = []
+        for li, vk, d in fd:
+            mods = SX.clist(f"({mi}, {SX.clist(f'({a}, {SX.cstr(t)})' for a, t in d[str(mi)]) if d[str(mi)] else '(@nil (Z * list (Z * list Z)))'})" for mi in (0, 1, 2))
+            rows.append(f"({li}, {mods})")
+        fts.append(f"({i}, {SX.clist(rows) if rows else '(@nil (Z * list (Z * list (Z * list Z))))'})")
+    ops = [t for t, _ in _model_ops(case, obs)]
     return f"Case {SX.clist(fts) if fts else '(@nil (Z * list (Z * list (Z * list (Z * list Z)))))'} {SX.clist(ops) if ops else '(@nil op)'}"
 
 
@@ -1775,7 +2031,7 @@ def _hash_text(t):
 
 
 def expected_sx(case, obs):
-    return SX.dumps(SX.ok([[_hash_text(t) for t in rec.get("out", [])] for rec in obs["ops"]]))
+    return SX.dumps(SX.ok([[_hash_text(t) for t in texts] for _, texts in _model_ops(case, obs)]))
 
 
 # ====================================================================== oracle (the statement, independently of the model)
@@ -1835,24 +2091,85 @@ def _dangling_package_parent(content):
     return False
 
 
+def _classify(case, obs, snaps, i, oi, t, ref):
+    """signature of 'text t of object oi (operation i) differs from the fresh reference'"""
+    sig = "history-dependent"
+    if oi is not None and obs.get("progs") is not None and obs["progs"][oi] is not None:
+        prog = obs["progs"][oi]
+        has_enum = any(it[0] == "e" for l in prog.get("lines", []) for it in l)
+        if _dangling_package_parent(snaps[i]["conf"]):
+            sig = "late-registered-parent"
+        elif has_enum and obs.get("aliased"):
+            sig = "enum-cache-equal-keys"
+        elif has_enum:
+            p1, c1 = _colour_map(t)
+            p2, c2 = _colour_map(ref)
+            if p1 == p2:
+                rng_ = _enum_ranges(prog)
+                diff = [j for j in range(len(c1)) if c1[j] != c2[j]]
+                if diff and all(any(a <= j < b for a, b in rng_) for j in diff):
+                    sig = "enum-cache-id-reuse"
+    return sig
+
+
 def oracle(case, obs):
     if "__hang__" in obs:
         return [("hang", "the history did not finish")]
     out = []
     snaps = _content_tracker(case)
+    made = {}       # handle -> (index of its make op, record of the make op)
+    hlines = {}     # handle -> texts of the lines its iterator yielded so far
     for i, (op, rec) in enumerate(zip(case["ops"], obs["ops"])):
         where = f"op {i} {op[:3]}"
         if "err" in rec:
             out.append(("render-raises", f"{where} raised {rec['err']}"))
             continue
-        if "out" not in rec:
+        if op[0] == "make":
+            made[op[1]] = (i, rec)
+            hlines[op[1]] = []
+        if op[0] in ("next", "whole"):
+            # a lazy result consumed later / step by step / interleaved with others: every text must be what a fresh
+            # copy of the object prints under the configuration in force when the result was created
+            mi, mrec = made.get(op[1], (None, None))
+            if mrec is None or "ref" not in mrec:
+                continue
+            mop = case["ops"][mi]
+            ref = mrec["ref"]
+            for t in rec.get("out", []):
+                if mop[4] and ESC in t:
+                    out.append(("esc-in-no-color", f"{where}: a no_color result (created by op {mi}) yields an escape character: {t!r}"))
+            if op[0] == "whole":
+                texts = rec["out"]
+                if len(texts) == 2 and texts[0] != texts[1]:
+                    out.append(("whole-ne-lines", f"{where}: consuming the result by line and whole gives different texts: {texts[0]!r} vs {texts[1]!r}"))
+                for t in texts:
+                    if t != ref:
+                        out.append((_classify(case, obs, snaps, mi, mop[2], t, ref),
+                                    f"{where}: the result created by op {mi} prints {t!r}; a fresh copy under a fresh configuration with the same content prints {ref!r}"))
+                        break
+            else:
+                n0 = len(hlines[op[1]])
+                hlines[op[1]] += rec.get("out", [])
+                want = ref.split("\n")
+                got = hlines[op[1]]
+                if got[n0:] != want[n0:len(got)]:
+                    k = next(x for x in range(n0, len(got)) if x >= len(want) or got[x] != want[x])
+                    out.append((_classify(case, obs, snaps, mi, mop[2], got[k], want[k] if k < len(want) else ""),
+                                f"{where}: line {k} of the result created by op {mi}, consumed step by step, is {got[k]!r}; a fresh copy "
+                                f"under a fresh configuration with the same content prints {(want[k] if k < len(want) else None)!r} there"))
+                if rec.get("end") and len(got) != len(want):
+                    out.append(("whole-ne-lines", f"{where}: the iterator of the result created by op {mi} ended after {len(got)} lines, the whole text has {len(want)}"))
+            continue
+        if op[0] != "make" and "out" not in rec:
             continue
         if "ref_err" in rec:
             out.append(("render-raises", f"{where}: rendering a fresh copy under a fresh configuration raised {rec['ref_err']}"))
             continue
+        if "ref" not in rec:
+            continue
         ref, ref_nc = rec["ref"], rec["ref_nc"]
         nocolor = op[0] == "render" and op[3]
-        texts = rec["out"]
+        texts = rec.get("out", [])
         if len(texts) == 2 and texts[0] != texts[1]:
             out.append(("whole-ne-lines", f"{where}: consuming the result by line and whole gives different texts: {texts[0]!r} vs {texts[1]!r}"))
         if ESC in ref_nc:
@@ -1869,24 +2186,12 @@ def oracle(case, obs):
             if t == ref:
                 continue
             # the text depends on something else than object, format and configuration in force
-            sig = "history-dependent"
             if op[0] == "help" and t == rec.get("ref_ctor"):
                 sig = "hdoc-captured-palette"
-            elif op[0] == "render" and obs.get("progs") is not None and obs["progs"][op[1]] is not None:
-                prog = obs["progs"][op[1]]
-                has_enum = any(it[0] == "e" for l in prog.get("lines", []) for it in l)
-                if _dangling_package_parent(snaps[i]["conf"]):
-                    sig = "late-registered-parent"
-                elif has_enum and obs.get("aliased"):
-                    sig = "enum-cache-equal-keys"
-                elif has_enum:
-                    p1, c1 = _colour_map(t)
-                    p2, c2 = _colour_map(ref)
-                    if p1 == p2:
-                        rng_ = _enum_ranges(prog)
-                        diff = [j for j in range(len(c1)) if c1[j] != c2[j]]
-                        if diff and all(any(a <= j < b for a, b in rng_) for j in diff):
-                            sig = "enum-cache-id-reuse"
+            elif op[0] == "render":
+                sig = _classify(case, obs, snaps, i, op[1], t, ref)
+            else:
+                sig = "history-dependent"
             out.append((sig, f"{where}: text {t!r} differs from the rendering of a fresh copy under a fresh configuration with the same content {ref!r}"
                              + (f" (attempt {obs.get('attempts')})" if case.get("hunt") else "")))
             break
@@ -1922,6 +2227,7 @@ def shrink_candidates(case):
 def _well_formed(ops):
     live = set()
     hs = set()
+    rs = set()
     for op in ops:
         k = op[0]
         if k == "newconf":
@@ -1947,6 +2253,16 @@ def _well_formed(ops):
         elif k == "help":
             if op[1] not in hs:
                 return False
+        elif k == "make":
+            pa = op[5]
+            if isinstance(pa, list) and pa[1] not in live:
+                return False
+            if op[3] is not None and op[3] not in live:
+                return False
+            rs.add(op[1])
+        elif k in ("next", "whole"):
+            if op[1] not in rs:
+                return False
     return True
 
 
@@ -1971,6 +2287,13 @@ LEVEL_TEXT = ("Model level, unbounded histories / objects / allocation oracles, 
               "150, every measure on visible text; no colour enters the layout function): pp_layout_guards (the program of ANY json-like value meets "
               "obj_ok / simple_obj / obj_noesc), pp_strip_layout (strip of any rendering = the no_color rendering, layout included), pp_closed_form "
               "(text = formula of value, format and configuration state), pp_layout_thresholds (the model at 192/204 and 144/156).  "
+              "LAZY RESULTS (histories may create results first and consume them later, line by line, interleaved: operations OMake / ONext / "
+              "OWholeH; reach and caches_coherent cover them): handle_created, handle_closed_forms (what a step / a whole consumption prints in ANY "
+              "reachable world is a formula of the line and of the colours of the palette the result holds; single-palette objects), "
+              "interleaved_no_color (a no_color result prints the plain text of every line and of the whole, whatever guarded operations -- other "
+              "results of the same object created and consumed, renderings, registrations, drops -- happen between its creation and its "
+              "consumption; every object, tables included), interleave_example.  Not a theorem: the coloured history form for compound objects "
+              "(sub-palettes are requested when the lines are produced; same cold/warm caveat as below).  "
               "GUARDED: history_independent_compound_warm (tables / record formatters in colour: closed formula of object + configuration "
               "once every syntax id used by the object's palette classes is present and resolved in the configuration, i.e. from the second "
               "rendering on; warm_satisfiable shows a fresh configuration is cold and one rendering warms it).  "
